@@ -38,6 +38,8 @@ type Frame struct {
 	locs         map[ssa.Value]*Loc
 	closures     map[ssa.Value]*closureInfo
 	allocsByName map[string][]*ssa.Alloc
+	pendingArgLocs map[int]*Loc // interior-address arguments of the call being translated
+	argLocsUsed    bool         // the callee was inlined and bound them
 	curRangeIdx  *ssa.Alloc // hidden index of the loop whose invariants are being evaluated
 	cellAlloc    map[*ssa.Alloc]bool
 	params       []Term
@@ -379,6 +381,13 @@ func (fr *Frame) run(st0 *State, pc0 Term) {
 		}
 		for _, in := range b.Instrs {
 			fr.instr(in, st, pc, b)
+			if os.Getenv("GOVC_DEBUG") != "" {
+				for n, t := range st.heaps {
+					if hi := vc.heapInfo[n]; hi != nil && hi.Sort != t.Sort {
+						fmt.Fprintf(os.Stderr, "debug: %s: after %s: heap %s has sort %s, declared %s\n", fn.Name(), in.String(), n, t.Sort, hi.Sort)
+					}
+				}
+			}
 		}
 		fr.ends[b] = st
 		// back edges leaving this block: invariant preservation
